@@ -159,7 +159,7 @@ impl Property for C03 {
         "C03"
     }
     fn rule(&self) -> &'static str {
-        "case = (function | constraint | removed constraint | instance with removed constraints, dependencies, irrelevant variables; any representation) x in-bound state x split into fixed part s1 (possibly with non-occurring ids, possibly applied in two steps in either order) and remainder s2; \
+        "case = (function | constraint | removed constraint | instance with removed constraints, dependencies, irrelevant variables; any representation) x in-bound state x split into fixed part s1 (possibly with non-occurring ids, possibly applied in two steps in either order) and remainder s2; also functions of 9..257 terms listed in ascending id order with repeated ids of which 1..3 variables are fixed, and instances in which a variable fixed earlier has re-entered the functions and is fixed again; \
          oracle = exact partial evaluation of the raw polynomial + reference evaluator at s1 u s2; non-trivial = s1, s2 non-empty and a term mixing a fixed and a free variable; distinct = sha256(object, s1, s2, steps)"
     }
     fn required_labels(&self) -> Vec<String> {
